@@ -302,3 +302,39 @@ def map_subscript(ctx, r):
         if m in gets and m not in subs:
             r.ob(True, "", "abra_core/src/statics.rs", 0, "", sample=f"{m}: read with .get only ({len(gets[m])} sites)")
     r.count("tables read in the front end", len(set(gets) | set(subs)), 8, "abra_core/src/statics.rs")
+
+
+@rule("BYTE-AS-CHAR", ["C34", "C17", "C04"], "a single byte of UTF-8 text is never turned into a char (`text.as_bytes()[i] as char`): for non-ASCII text that is another character, classification by it stops inside a multi-byte character and the slice that follows panics")
+def byte_as_char(ctx, r):
+    files = FRONT + ["abra_core/src/lib.rs", "abra_core/src/vm.rs", "abra_core/src/translate_bytecode.rs"]
+    n = 0
+    for file in files:
+        items = ctx.file_items(file)
+        if items is None:
+            r.missing(file)
+            continue
+        short = file.split("/")[-1]
+        for f, _ in q.iter_items(items):
+            if f["k"] != "Fn" or f.get("body") is None:
+                continue
+
+            def text_byte(e):
+                """is the expression one byte read out of a string's bytes?"""
+                for y in q.walk(e):
+                    if y["k"] == "Index" and any(z["k"] == "MethodCall" and z["m"] in ("as_bytes", "bytes") for z in q.walk(y["e"])):
+                        return True
+                    if y["k"] == "MethodCall" and y["m"] in ("get", "nth") and any(z["k"] == "MethodCall" and z["m"] in ("as_bytes", "bytes") for z in q.walk(y["recv"])):
+                        return True
+                return False
+
+            byte_locals = {b for l in _walk_own(f["body"]) if l["k"] == "Local" and l.get("init") is not None and text_byte(l["init"]) and not any(c["k"] == "Cast" for c in q.walk(l["init"])) for b in q.pat_bindings(l["pat"])}
+            for x in _walk_own(f["body"]):
+                if x["k"] == "Index" and any(z["k"] == "MethodCall" and z["m"] in ("as_bytes", "bytes") for z in q.walk(x["e"])):
+                    n += 1
+                if x["k"] == "Cast" and x.get("ty", "").strip() == "char":
+                    src = x["e"]
+                    bad = text_byte(src) or (q.strip_refs(src)["k"] == "Path" and q.strip_refs(src)["p"] in byte_locals)
+                    if bad:
+                        r.find(f"{short}:{f['name']}:text-byte-cast-to-char", file, x["l"],
+                               f"{f['name']}: `{q.show(x)[:80]}` turns one byte of UTF-8 text into a char: a continuation byte such as 0xAA becomes the letter U+00AA, so scanning by `is_alphanumeric` stops in the middle of a multi-byte character (the slice taken there panics: 'not a char boundary'), and copying text this way re-encodes every non-ASCII byte as two")
+    r.count("bytes read out of text", n, 2, "abra_core/src")
